@@ -5,6 +5,7 @@ import (
 	"go/ast"
 	"go/token"
 	"go/types"
+	"golang.org/x/tools/go/cfg"
 	"strings"
 
 	"verif/checker/core"
@@ -639,5 +640,103 @@ func c14r5(rc *core.RC) {
 	})
 	if n < 2 {
 		rc.Unknown("encoder.linkRecursiveCode/jump-targets", fd.Pos(), "found %d stores into a back-reference's Jmp", n)
+	}
+}
+
+// ---- C14.R6 the decoder applied to a destination is the one looked up for this call's type ----
+
+// In the Unmarshal entry points and in Decoder.DecodeWithOption the decoder that receives the
+// destination pointer must be the direct result of decoder.CompileToGetDecoder(typ) in the same
+// call, with typ taken from this call's value, and validateType must run in every call: a decoder
+// remembered from an earlier call (in a field) can be paired with another type.
+func c14r6(rc *core.RC) {
+	p := rc.P
+	n := 0
+	for _, name := range []string{"unmarshal", "unmarshalContext", "unmarshalNoEscape", "Decoder.DecodeWithOption"} {
+		fd := p.Func("json", name)
+		fn := "json." + name
+		if fd == nil {
+			rc.Unknown(fn, token.NoPos, "entry point not found")
+			continue
+		}
+		info := p.Info(fd)
+		rc.Touch(p.FuncName(fd))
+		cf := core.BuildCFG(fd.Body, info)
+		// the decode call and its receiver
+		var dcall *ast.CallExpr
+		var recv types.Object
+		ast.Inspect(fd.Body, func(m ast.Node) bool {
+			if c, ok := m.(*ast.CallExpr); ok {
+				if sel, ok := c.Fun.(*ast.SelectorExpr); ok && (sel.Sel.Name == "Decode" || sel.Sel.Name == "DecodeStream") {
+					if o := core.ObjOf(info, sel.X); o != nil && strings.HasSuffix(o.Type().String(), "decoder.Decoder") {
+						dcall, recv = c, o
+					}
+				}
+			}
+			return true
+		})
+		key := fn + "/decoder-looked-up-in-this-call"
+		if dcall == nil {
+			rc.Unknown(key, fd.Pos(), "no Decode/DecodeStream call on a decoder.Decoder variable (is the decoder taken from a field?)")
+			continue
+		}
+		n++
+		defs, good := 0, true
+		origin := ""
+		ast.Inspect(fd.Body, func(m ast.Node) bool {
+			as, ok := m.(*ast.AssignStmt)
+			if !ok {
+				return true
+			}
+			for i, l := range as.Lhs {
+				if core.ObjOf(info, l) != recv {
+					continue
+				}
+				defs++
+				var r ast.Expr
+				if len(as.Rhs) == len(as.Lhs) {
+					r = as.Rhs[i]
+				} else if len(as.Rhs) == 1 {
+					r = as.Rhs[0]
+				}
+				origin = core.Src(p.Fset, r)
+				c, ok := core.Unparen(r).(*ast.CallExpr)
+				if !ok || core.CalleeName(info, c) != "decoder.CompileToGetDecoder" {
+					good = false
+				}
+			}
+			return true
+		})
+		rc.Check(defs == 1 && good, key, dcall.Pos(), "the decoder that receives the destination is defined once, by decoder.CompileToGetDecoder in this call (found %d definition(s), last: `%s`)", defs, origin)
+		// validateType dominates the decode call
+		vkey := fn + "/validateType-every-call"
+		var vb *cfg.Block
+		ast.Inspect(fd.Body, func(m ast.Node) bool {
+			if c, ok := m.(*ast.CallExpr); ok && core.CalleeName(info, c) == "json.validateType" {
+				for _, b := range cf.G.Blocks {
+					for _, nd := range b.Nodes {
+						if nd.Pos() <= c.Pos() && c.End() <= nd.End() {
+							vb = b
+						}
+					}
+				}
+			}
+			return true
+		})
+		db, _ := cf.BlockOf(dcall)
+		if db == nil {
+			// the call sits inside a larger statement node
+			for _, b := range cf.G.Blocks {
+				for _, nd := range b.Nodes {
+					if nd.Pos() <= dcall.Pos() && dcall.End() <= nd.End() {
+						db = b
+					}
+				}
+			}
+		}
+		rc.Check(vb != nil && db != nil && (vb == db || cf.Dominates(vb, db)), vkey, dcall.Pos(), "validateType (non-nil pointer destination) runs on every path to the decode call")
+	}
+	if n < 4 {
+		rc.Unknown("json/decode-entry-points", token.NoPos, "found %d of 4 decode entry points", n)
 	}
 }
